@@ -3,6 +3,8 @@
 // so that the driver can aggregate (union of hash sets) across workers.
 #pragma once
 
+#include <unistd.h>
+
 #include <cstdint>
 #include <cstdio>
 #include <cstdlib>
@@ -89,6 +91,14 @@ struct Report {
   }
 
   bool thorough() const { return tier == 1; }
+
+  /// Exhaustive enumerators call this once per instance: re-arms a watchdog so
+  /// that a shard stuck in one instance is killed (SIGALRM) instead of running
+  /// into the driver's hard timeout.
+  unsigned long hb = 0;
+  void heartbeat() {
+    if ((++hb & 255) == 0) alarm(90);
+  }
 
   /// Is the known finding `slug` active (its class must be excluded)?
   bool known(const std::string &slug) const {
